@@ -200,7 +200,7 @@ CLAIMED = {
              '`<fn>_eq` theorem per definition (same answer, same final state, panics exactly where the model does, on every state '
              'satisfying the invariant WF of c08_reachable_wf), gen_step / gen_run (the step function assembled from the generated '
              'definitions = the model step), and c08gen_refinement, c08gen_reachable_wf, c08gen_never_panics, '
-             'c08gen_failed_ops_change_nothing restated on the generated definitions. Props/C01Store.lean (built here): the hand storage model of C01/C10 (Model/CausalGraph.lean) simulates this ultragraph model on every add-only history (sim_build) and agrees with the generated contains_node / contains_edge / node_map length (c01store_gen_contains_node, c01store_gen_contains_edge, c01store_last_index).',
+             'c08gen_failed_ops_change_nothing restated on the generated definitions. Props/C01Store.lean (built here): the hand storage model of C01/C10 (Model/CausalGraph.lean) simulates this ultragraph model on every add-only history (sim_build) and agrees with the generated contains_node / contains_edge / node_map length (c01store_gen_contains_node, c01store_gen_contains_edge, c01store_gen_get_node, c01store_gen_outgoing_edges, c01store_last_index, c01store_weights); c10_accepted_is_c15_minimum: a path C10\'s driver accepts is a minimum-weight Path in C15\'s sense on the generated ultragraph state.',
         note='Trusted: Lean kernel; rs2lean_ugraphfns.py (~1800 lines: item scanner, statement / pattern / closure parser on top of '
              'rsblock.py, typed statement-by-statement translation; grammar and the table Rust method -> primitive in its docstring; '
              'refuses anything else); the vocabulary of Model/UGraph.lean the generated definitions are written against: AHashMap as '
